@@ -13,7 +13,10 @@ cell, in a helper subprocess per shard.  This file is the *model* side and impor
     X  setting S mentioned by source A while a companion setting T is mentioned by another source B
        (a source must not disturb what another source says about a different setting)
     I  an invalid value from each source able to carry it, alone and with a valid value waiting in a
-       less authoritative source (must stop loading, must not fall back);
+       less authoritative source (must stop loading, must not fall back); the representatives cover, per
+       validator, every way of being invalid AND every exception type the validator refuses a value with
+       (TypeError, ValueError, ConfigError, AttributeError - e.g. `user = "nobody",` -, and what a lazy
+       worker_class / logger_class function raises: KeyError, ImportError, RuntimeError);
     R  reload histories: load, then the config file is edited (the setting is added / changed / REMOVED, or
        the discovered ./gunicorn.conf.py is deleted) and the application is reloaded the way the master does
        on SIGHUP, while nothing / the framework / GUNICORN_CMD_ARGS / the command line also mentions the
@@ -73,8 +76,11 @@ def V(nf, py=None, cli=None, pre="", load=None, origin=None):
             "cli": cli, "pre": pre, "load": load, "origin": origin}
 
 
-def BAD(label, py=None, cli=None, pre=""):
-    return {"label": label, "py": py, "cli": cli, "pre": pre, "nf": None, "load": None}
+def BAD(label, py=None, cli=None, pre="", exc=None):
+    """One invalid representative. exc: the exception type with which the validator is expected to reject the
+    Python form (file / framework); it only names the reach counter when the helper could not watch the rejection -
+    the rule is the same for every type: loading stops with an error status."""
+    return {"label": label, "py": py, "cli": cli, "pre": pre, "nf": None, "load": None, "exc": exc}
 
 
 def _account_ok(kind, name, ident):
@@ -117,7 +123,7 @@ def _lists(*lists):
     return out
 
 
-ORIGINS = ("imported-function", "imported-callable-object", "partial", "imported-class", "enum-member")
+ORIGINS = ("imported-function", "imported-callable-object", "partial", "imported-class", "enum-member", "lazy-function")
 
 
 def _hooks(arity):
@@ -221,14 +227,19 @@ def pool_for(m, P):
                 V(NF("<class C16Worker>"), py="C16Worker", pre="class C16Worker:\n    pass"),
                 V("gunicorn.workers.ggevent.GeventWorker", cli="gunicorn.workers.ggevent.GeventWorker"),
                 V(NF("<class C16SharedWorker>"), py="C16SharedWorker",
-                  pre="from %s import C16SharedWorker" % e7.SHARED, origin="imported-class")]
+                  pre="from %s import C16SharedWorker" % e7.SHARED, origin="imported-class"),
+                # the lazy form: a function of no arguments that returns the class (called by the validator)
+                V(NF("<class C16SharedWorker>"), py="c16_lazy_worker", origin="lazy-function",
+                  pre="def c16_lazy_worker():\n    from %s import C16SharedWorker\n    return C16SharedWorker" % e7.SHARED)]
     if k == "logger_class":
         return [V("gunicorn.instrument.statsd.Statsd", cli="gunicorn.instrument.statsd.Statsd"),
                 V("gunicorn.glogging.Logger", cli="gunicorn.glogging.Logger"),
                 V(NF("<class C16Logger>"), py="C16Logger", pre="class C16Logger:\n    pass"),
                 V("simple", cli="simple"),
                 V(NF("<class C16SharedLogger>"), py="C16SharedLogger",
-                  pre="from %s import C16SharedLogger" % e7.SHARED, origin="imported-class")]
+                  pre="from %s import C16SharedLogger" % e7.SHARED, origin="imported-class"),
+                V(NF("<class C16SharedLogger>"), py="c16_lazy_logger", origin="lazy-function",
+                  pre="def c16_lazy_logger():\n    from %s import C16SharedLogger\n    return C16SharedLogger" % e7.SHARED)]
     if k == "callable":
         return _hooks(m["arity"])
     if k == "post_request":          # (worker, req, environ, resp); shorter legacy forms are wrapped, not used here
@@ -252,50 +263,83 @@ def pool_for(m, P):
     return None
 
 
+def _lazy_bad(label, body, exc, args=""):
+    """A worker_class / logger_class given in the lazy form whose function fails (or returns something useless)."""
+    return BAD(label, py="c16_lazy_bad", pre="def c16_lazy_bad(%s):\n    %s" % (args, body), exc=exc)
+
+
 def invalids_for(m, P):
-    """One representative per way of being invalid (what the validator documents as an error)."""
+    """Representatives per way of being invalid (what the validator documents as an error) AND per exception type
+    the validator can reject a value with - found by walking every validator of gunicorn/config.py over non-strings,
+    containers, bytes, NUL bytes, functions that fail ...: TypeError / ValueError nearly everywhere, ConfigError
+    (user, group, chdir, reload_engine), AttributeError (user / group: anything that is neither int nor str, e.g. the
+    tuple a trailing comma makes; lazy class functions), and whatever a lazy worker_class / logger_class function
+    raises (KeyError, ImportError, RuntimeError ...).  Whatever the type: the value must stop loading."""
     k = klass(m)
     missing = os.path.join(P["home"], "c16-missing")
+    T, VE, CE, AE = "TypeError", "ValueError", "ConfigError", "AttributeError"
     if k in ("pos_int", "umask"):
-        return [BAD("negative", py="-1", cli="-1"), BAD("non-numeric", py="'abc'", cli="abc"),
-                BAD("float", py="7.5", cli="7.5"), BAD("none", py="None")]
+        return [BAD("negative", py="-1", cli="-1", exc=VE), BAD("non-numeric", py="'abc'", cli="abc", exc=VE),
+                BAD("float", py="7.5", cli="7.5", exc=T), BAD("none", py="None", exc=T)]
     if k == "cert_reqs":
-        return [BAD("negative", py="-1", cli="-1"), BAD("non-numeric", py="'x'", cli="x")]
+        return [BAD("negative", py="-1", cli="-1", exc=VE), BAD("non-numeric", py="'x'", cli="x", exc=VE),
+                BAD("float", py="2.0", cli="2.0", exc=T)]
     if k in ("bool", "sendfile"):
-        return [BAD("maybe", py="'maybe'"), BAD("non-bool", py="5")]
+        return [BAD("maybe", py="'maybe'", exc=VE), BAD("non-bool", py="5", exc=T)]
     if k in ("string", "config", "paste"):
-        return [BAD("non-string", py="123")]
+        return [BAD("non-string", py="123", exc=T)]
     if k in ("bind", "raw_env", "raw_paste_global_conf"):
-        return [BAD("non-string-item", py="[5]")]
+        return [BAD("non-string-item", py="[5]", exc=T), BAD("non-iterable", py="5", exc=T)]
     if k == "reload_extra_files":
-        return [BAD("missing-file", py=repr([missing]), cli=[missing])]
+        return [BAD("missing-file", py=repr([missing]), cli=[missing], exc=VE), BAD("non-string-item", py="[5]", exc=T)]
     if k == "string_to_list":
-        return [BAD("list-for-string", py="['SCRIPT_NAME']")]
+        return [BAD("list-for-string", py="['SCRIPT_NAME']", exc=T)]
     if k == "addr_list":
-        return [BAD("bad-ip", py="'10.0.0.999'", cli="10.0.0.999"), BAD("list-for-string", py="['127.0.0.1']")]
+        return [BAD("bad-ip", py="'10.0.0.999'", cli="10.0.0.999", exc=VE),
+                BAD("list-for-string", py="['127.0.0.1']", exc=T)]
     if k in ("user", "group"):
-        return [BAD("unknown-name", py="'c16-no-such-account'", cli="c16-no-such-account")]
+        name = "nobody" if k == "user" else "nogroup"
+        return [BAD("unknown-name", py="'c16-no-such-account'", cli="c16-no-such-account", exc=CE),
+                # `user = "nobody",` - the trailing comma makes a tuple
+                BAD("tuple-by-trailing-comma", py="(%r,)" % name, exc=AE),
+                BAD("list-of-names", py="[%r]" % name, exc=AE), BAD("float-id", py="65534.0", exc=AE),
+                BAD("bytes-name", py="b%r" % name, exc=T), BAD("nul-in-name", py="'no\\x00body'", exc=VE)]
     if k == "chdir":
-        return [BAD("missing-directory", py=repr(missing), cli=missing), BAD("non-string", py="5")]
+        return [BAD("missing-directory", py=repr(missing), cli=missing, exc=CE), BAD("non-string", py="5", exc=T)]
     if k in ("worker_class", "logger_class"):
-        return [BAD("non-string", py="123"),
+        return [BAD("non-string", py="123", exc=T),
                 BAD("imported-object-neither-class-nor-string", py="c16_shared_obj_1",
-                    pre="from %s import c16_shared_obj_1" % e7.SHARED)]
+                    pre="from %s import c16_shared_obj_1" % e7.SHARED, exc=T),
+                # the lazy form gone wrong: the function names a class its module does not have, imports a module
+                # that is not installed, looks the class up in a registry, gives up, returns no class, wants arguments
+                _lazy_bad("lazy-names-missing-class", "import %s as c16_m\n    return c16_m.C16NoSuchClass" % e7.SHARED, AE),
+                _lazy_bad("lazy-imports-missing-module", "import c16_no_such_module\n    return c16_no_such_module.W",
+                          "ModuleNotFoundError"),
+                _lazy_bad("lazy-registry-lookup-fails", "return {}['C16Worker']", "KeyError"),
+                _lazy_bad("lazy-raises", "raise RuntimeError('c16: no class today')", "RuntimeError"),
+                _lazy_bad("lazy-returns-no-class", "return 5", T),
+                _lazy_bad("lazy-wants-argument", "return a0", T, args="a0")]
     if k in ("callable", "post_request"):
         wrong = (m["arity"] + 1) if k == "callable" else 5
         args = ", ".join("a%d" % i for i in range(wrong))
-        return [BAD("wrong-arity", py="c16_bad_hook", pre="def c16_bad_hook(%s):\n    pass" % args),
-                BAD("not-callable", py="5"), BAD("bad-import-string", py="'c16_no_such_module.fn'"),
+        return [BAD("wrong-arity", py="c16_bad_hook", pre="def c16_bad_hook(%s):\n    pass" % args, exc=T),
+                BAD("not-callable", py="5", exc=T), BAD("bad-import-string", py="'c16_no_such_module.fn'", exc=T),
                 BAD("wrong-arity-imported", py="c16_shared_hook_%d" % wrong,
-                    pre="from %s import c16_shared_hook_%d" % (e7.SHARED, wrong))]
+                    pre="from %s import c16_shared_hook_%d" % (e7.SHARED, wrong), exc=T),
+                # rejected with ValueError: an import string without a module; a partial binding more than the function takes
+                BAD("import-string-without-module", py="'.c16_hook'", exc=VE),
+                BAD("partial-binds-too-much", py="c16_functools.partial(c16_hook_z, 'c16')",
+                    pre="import functools as c16_functools\ndef c16_hook_z():\n    pass", exc=VE)]
     if k in ("secure_scheme_headers", "logconfig_dict"):
-        return [BAD("list-for-dict", py="[('a', 'b')]"), BAD("string-for-dict", py="'a=b'"), BAD("none", py="None")]
+        return [BAD("list-for-dict", py="[('a', 'b')]", exc=T), BAD("string-for-dict", py="'a=b'", exc=T),
+                BAD("none", py="None", exc=T)]
     if k == "header_map":
-        return [BAD("unknown", py="'bogus'", cli="bogus"), BAD("non-string", py="5")]
+        return [BAD("unknown", py="'bogus'", cli="bogus", exc=VE), BAD("non-string", py="5", exc=T)]
     if k == "reload_engine":
-        return [BAD("unknown", py="'bogus'", cli="bogus")]
+        return [BAD("unknown", py="'bogus'", cli="bogus", exc=CE), BAD("list-of-names", py="['poll']", exc=T)]
     if k == "statsd_host":
-        return [BAD("bad-port", py="'localhost:notaport'", cli="localhost:notaport"), BAD("non-string", py="5")]
+        return [BAD("bad-port", py="'localhost:notaport'", cli="localhost:notaport", exc=T),
+                BAD("non-string", py="5", exc=T)]
     return []                        # ssl_version: documented as ignored, nothing is invalid
 
 
@@ -648,6 +692,23 @@ def is_nontrivial(cell, model, baseline):
     return len(set(nfs)) > 1
 
 
+EXC_FAMILIES = ("AttributeError", "TypeError", "ValueError", "ConfigError", "other")
+
+
+def rejection_type(name, rejected, bad, src):
+    """With which exception type was the value of `name` refused: what the helper saw at Setting.set; for a file /
+    framework value it did not see refused (the refusal came from elsewhere), the type tabulated with the
+    representative; a command-line-like source may be refused by the option parser before any validator runs."""
+    seen = [t for n, t in rejected or [] if n == name]
+    if seen:
+        return seen[0]
+    return bad.get("exc") if src in ("file", "framework") else "option-parser"
+
+
+def exc_family(t):
+    return t if t in EXC_FAMILIES else "other" if t and t != "option-parser" else None
+
+
 def judge(run, cell, recipe, model, baseline, obs, MB):
     """Decide one cell. Records at most one violation per cell (the mentioned setting first)."""
     name = cell["s"]
@@ -658,12 +719,16 @@ def judge(run, cell, recipe, model, baseline, obs, MB):
     if cell["kind"] == "I":
         src = cell["src"]
         run.count("invalid_cells")
+        bad = [v for s, _, v, isbad in model["ment"] if isbad][0]
+        how = rejection_type(name, obs.get("rejected"), bad, src)
         if obs["ok"]:
             run.violation("invalid-value-accepted/" + vname,
                           "%s: invalid value (%s) from the %s source%s did not stop loading; effective value %s "
-                          "(built-in default %s); sources %s" % (
+                          "(built-in default %s); the validator refuses this value with %s%s; sources %s" % (
                               name, cell["bad"], src, " with a valid value in " + cell["fallback"] if cell["fallback"]
-                              else "", obs["values"].get(name), baseline[name], json.dumps(shown)), cell)
+                              else "", obs["values"].get(name), baseline[name], how,
+                              " (seen while loading)" if [1 for n, _ in obs.get("rejected") or [] if n == name] else "",
+                              json.dumps(shown)), cell)
         elif obs["code"] in (0, None):
             run.violation("invalid-value-no-error-status/" + vname,
                           "%s: invalid value (%s) from %s ended loading with exit status %r" % (
@@ -673,6 +738,18 @@ def judge(run, cell, recipe, model, baseline, obs, MB):
             run.count("invalid_rejected_from_" + src)
             if cell["fallback"]:
                 run.count("invalid_rejected_despite_fallback")
+            fam = exc_family(how)
+            if fam and src in ("file", "framework"):
+                # the ways a validator says no: each of them, from each of these sources, must stop loading
+                run.count("invalid_rejected_from_%s_by_%s" % (src, fam))
+                if how not in EXC_FAMILIES:
+                    run.count("invalid_rejected_by_" + how)
+            if [1 for n, _ in obs.get("rejected") or [] if n == name]:
+                run.count("rejecting_exception_type_observed")
+                if src in ("file", "framework") and how != bad.get("exc"):      # noted only: the table is a description
+                    run.info["rejection_type_not_as_tabulated"] = run.info.get("rejection_type_not_as_tabulated", 0) + 1
+                    run.info.setdefault("rejection_type_not_as_tabulated#sample", "%s %s: %s, table says %s" % (
+                        name, cell["bad"], how, bad.get("exc")))
         return
     if not obs["ok"]:
         run.violation("valid-configuration-rejected/" + vname,
@@ -815,6 +892,10 @@ def judge_history(run, cell, recipe, model, baseline, obs, MB):
                                       name, cell["bad"], o["code"]), cell)
                     return
                 run.count("reload_invalid_rejected")
+                bad = [x for x in invalids_for(MB[name], paths("/H")) if x["label"] == cell["bad"]][0]
+                fam = exc_family(rejection_type(name, o.get("rejected"), bad, "file"))
+                if fam:
+                    run.count("reload_invalid_rejected_by_" + fam)
                 run.count("reload_invalid_position_" + cell["pos"])
                 run.count("reload_delivery_" + cell["delivery"])
                 return                      # the master is gone
@@ -1033,6 +1114,9 @@ def main(tier, seed):
                 "delivery_env-c", "delivery_discover", "delivery_python", "delivery_fileprefix",
                 "invalid_cells", "invalid_rejected", "invalid_rejected_from_cli", "invalid_rejected_from_env",
                 "invalid_rejected_from_file", "invalid_rejected_from_framework", "invalid_rejected_despite_fallback",
+                # every way a validator refuses a value (exception type), from the sources that carry Python objects
+                *["invalid_rejected_from_%s_by_%s" % (src, fam) for src in ("file", "framework") for fam in EXC_FAMILIES],
+                *["reload_invalid_rejected_by_" + fam for fam in EXC_FAMILIES], "rejecting_exception_type_observed",
                 "unmentioned_settings_compared", "mentioned_settings_compared", "fresh_process_agrees",
                 # how files name objects that are not literals
                 *["file_value_%s_in_effect" % o for o in ORIGINS],
@@ -1074,6 +1158,9 @@ def main(tier, seed):
         "and the master adopts app.cfg (Arbiter.setup) exactly when that call returns; an exception, SystemExit "
         "included, ends the master, so what app.cfg holds after a failed reload is not judged; gunicorn.debug.spew is "
         "stubbed (reload() installs the line tracer when spew is set)",
+        "the exception type with which a validator refuses a value is observed by wrapping Setting.set in the helper "
+        "(the exception passes through unchanged); it only names reach counters (invalid_rejected_from_<source>_by_<type>) "
+        "and falls back to the type tabulated with the representative; the rule is the same for every type",
         "a reload with a rejected value in the file may either not return (error status) or return with the former "
         "merge intact in every setting; anything else counts as the rejected value having been silently replaced",
         "histories deliver the file by path (-c PATH on the command line or in GUNICORN_CMD_ARGS, file:PATH, discovered "
